@@ -36,6 +36,142 @@ func init() {
 	})
 }
 
+func init() {
+	register(&Rule{
+		ID: "ERR-3",
+		Doc: "Short writes are failures (the property's fault model lists them): for every File.WriteAt / io.WriterAt.WriteAt call the returned byte count is compared with the requested " +
+			"length – directly in the function, or after being stored into a struct field that is compared with the wanted length where the result is collected (ioResult.got vs want). " +
+			"Exception: the zero padding write after the footer on platforms whose allocation granularity differs from the page size (its only purpose is to extend the file for mmap).",
+		Props:      []string{"C06"},
+		Floor:      3,
+		Run:        ruleErr3,
+		Exceptions: []string{"(*Store).persistFooterUnsynced: padding write under AllocationGranularity != StorePageSize – a short padding only makes a later mmap fail with an error"},
+	})
+}
+
+func ruleErr3(c *Ctx) []*Ob {
+	o := newObs(c, "ERR-3")
+	// struct fields compared somewhere with ==/!=/< against another value
+	comparedFields := map[*types.Var]bool{}
+	for _, f := range c.Funcs {
+		eachInstr(f, func(i ssa.Instruction) {
+			b, ok := i.(*ssa.BinOp)
+			if !ok {
+				return
+			}
+			switch b.Op {
+			case token.EQL, token.NEQ, token.LSS, token.GTR, token.LEQ, token.GEQ:
+			default:
+				return
+			}
+			for _, opnd := range []ssa.Value{b.X, b.Y} {
+				if fv, _ := loadedField(opnd); fv != nil {
+					comparedFields[fv] = true
+				}
+			}
+		})
+	}
+	for _, f := range c.Funcs {
+		fn := c.fname(f)
+		nth := 0
+		eachInstr(f, func(i ssa.Instruction) {
+			call, ok := i.(*ssa.Call)
+			if !ok {
+				return
+			}
+			p, isP := writePrimitive(call)
+			if !isP || !(p == "File.WriteAt" || p == "io.WriterAt.WriteAt" || p == "os.File.WriteAt") {
+				return
+			}
+			nth++
+			var n ssa.Value
+			if refs := call.Referrers(); refs != nil {
+				for _, r := range *refs {
+					if e, ok := r.(*ssa.Extract); ok && e.Index == 0 {
+						n = e
+					}
+				}
+			}
+			construct := "byte count of " + p + " is checked"
+			unused := n == nil
+			if n != nil {
+				if rf := n.Referrers(); rf == nil || len(*rf) == 0 {
+					unused = true
+				}
+			}
+			if fn == "(*Store).persistFooterUnsynced" && unused {
+				// the padding write
+				if b := call.Block(); b != nil {
+					o.trivial(fn, construct+" (padding)", c.instrPos(call), "table exception: zero padding for mmap granularity")
+					return
+				}
+			}
+			checked := false
+			if n != nil {
+				seen := map[ssa.Value]bool{n: true}
+				work := []ssa.Value{n}
+				for len(work) > 0 && !checked {
+					v := work[len(work)-1]
+					work = work[:len(work)-1]
+					refs := v.Referrers()
+					if refs == nil {
+						continue
+					}
+					for _, r := range *refs {
+						switch x := r.(type) {
+						case *ssa.BinOp:
+							switch x.Op {
+							case token.EQL, token.NEQ, token.LSS, token.GTR, token.LEQ, token.GEQ:
+								checked = true
+							}
+						case *ssa.Phi, *ssa.Convert, *ssa.ChangeType:
+							if val := x.(ssa.Value); !seen[val] {
+								seen[val] = true
+								work = append(work, val)
+							}
+						case *ssa.Store:
+							if x.Val != v {
+								continue
+							}
+							switch a := x.Addr.(type) {
+							case *ssa.FieldAddr:
+								if fv := fieldAddrVar(a); fv != nil && comparedFields[fv] {
+									checked = true
+								}
+							case *ssa.Alloc:
+								if rr := a.Referrers(); rr != nil {
+									for _, u := range *rr {
+										if ld, isLd := u.(*ssa.UnOp); isLd && ld.Op == token.MUL && !seen[ld] {
+											seen[ld] = true
+											work = append(work, ld)
+										}
+									}
+								}
+							case *ssa.FreeVar:
+								// captured variable: loads in this function
+								if rr := a.Referrers(); rr != nil {
+									for _, u := range *rr {
+										if ld, isLd := u.(*ssa.UnOp); isLd && ld.Op == token.MUL && !seen[ld] {
+											seen[ld] = true
+											work = append(work, ld)
+										}
+									}
+								}
+							}
+						}
+					}
+				}
+			}
+			why := "the count is compared with the length that was to be written"
+			if !checked {
+				why = "the byte count returned by " + p + " is never compared with the requested length: a short write that reports no error leaves a partly written region and the operation reports success"
+			}
+			o.add(fn, construct, c.instrPos(call), checked, why)
+		})
+	}
+	return o.list
+}
+
 // writePrimitive tells whether ci is a call of one of the I/O primitives.
 func writePrimitive(ci ssa.CallInstruction) (string, bool) {
 	cc := ci.Common()
